@@ -30,7 +30,8 @@ RULE = ("two searches. crash: case = (functional, function kind, debug mode off 
         "(N per phase, outcome table) observations; a crash case is trivial when the phase makes no call (N = 0)")
 RULE_ADDED = ('Added later: every crash point also with a fault that does not derive from Exception (KeyboardInterr'
               'upt-like); alias search = every set partition of up to 5 / 6 declared names for EditableModule and L'
-              "inearOperator; push label 'first'.")
+              "inearOperator; push label 'first'. Round 4: kind em_cplx (object also holds complex / integer tensor"
+              's that the function does not use).')
 ASSUMPTIONS = [
     "one fault per execution in the crash search; the fault is raised at the start of the user's function / "
     "operator product; scripted functions are not enumerated (no object state, no place to inject a fault)",
